@@ -380,9 +380,18 @@ fn count_case(out: &mut Out, case: &Sx) {
 
 pub fn run(ctx: &Ctx) {
     let mut out = Out::new(ctx, "");
+    crate::common::quiet_panics();
     let emit = |out: &mut Out, case: Sx| {
         count_case(out, &case);
-        let (imp, nt) = exec(&case, out);
+        // a panic inside the implementation is an observation: distinct output, reported with the case, run goes on
+        let (imp, nt) = match crate::common::catch(|| exec(&case, out)) {
+            Some(r) => r,
+            None => {
+                out.count("cases_with_implementation_panic");
+                out.fail("the implementation panicked (add_value, close, re-aggregation or the histogram crate)".into(), &case);
+                (sx::tag(9, vec![sx::b(b"panic")]), true)
+            }
+        };
         out.case(&case, &imp, nt);
     };
     if let Some(p) = &ctx.replay {
